@@ -26,6 +26,7 @@ import time
 import traceback
 
 _seq = itertools.count(1)
+_lock = threading.Lock()   # LintedDir.add/persist_tree run in the main thread, render_file also in the pool's feeder thread
 _MAIN_PID = os.getpid()
 _MAIN_THREAD = threading.main_thread()
 
@@ -34,12 +35,13 @@ def _emit(ev: dict) -> None:
     path = os.environ.get("SQLFLUFF_VERIF_TRACE")
     if not path:
         return
-    ev = dict(ev, pid=os.getpid(), tid=threading.get_ident(), seq=next(_seq), src="wrap")
-    fd = os.open(path, os.O_WRONLY | os.O_APPEND | os.O_CREAT, 0o644)
-    try:
-        os.write(fd, (json.dumps(ev) + "\n").encode())
-    finally:
-        os.close(fd)
+    with _lock:   # numbering and writing are one step, so the wrapper stream is contiguous in file order
+        ev = dict(ev, pid=os.getpid(), tid=threading.get_ident(), seq=next(_seq), src="wrap")
+        fd = os.open(path, os.O_WRONLY | os.O_APPEND | os.O_CREAT, 0o644)
+        try:
+            os.write(fd, (json.dumps(ev) + "\n").encode())
+        finally:
+            os.close(fd)
 
 
 def _sha(path: str) -> str:
